@@ -194,7 +194,7 @@ PROPS = {
         "rule": "same scenarios as C07 (unblock issued before, while and after receivers block); token accounting, try_pop non-blocking and the recv_timeout bounds are "
                 "evaluated on the implementation's history with virtual-clock durations compared exactly with the LTS; in zero-latency runs every unblock must release a "
                 "waiting receiver at the very instant it is issued (or leave nobody waiting); srvq: the same through Server::recv / try_recv / recv_timeout / unblock",
-        "required_tags": ["ptimer:0", "unblock:1", "timed:1", "timeoutexp:1", "srv:1", "spurious:1", "preempt:1"],
+        "required_tags": ["ptimer:0", "unblock:1", "timed:1", "timeoutexp:1", "srv:1", "spurious:1", "preempt:1", "tmax:1"],
         "partial": ["theorem: token conservation, try_recv non-blocking, recv_timeout bounds on the zero-latency LTS", "scheduling latency of real threads is outside the model"],
         "assumptions": CTL_ASSUMPTIONS,
     },
